@@ -230,6 +230,32 @@ def signature(tail):
     return tail[-1][:160] if tail else "no output"
 
 
+def pipeline_component(run, tier, sd):
+    """growth beyond the listed property (DESIGN.md section 8): Pipeline.tla refines the Compile step of Cli.tla into the
+    phases of compiler_driver with their data dependencies (model-checked with a negative control); the phase sequence
+    of real in-process compilations (run-time wrappers, no source hook) is validated against it by PipelineTrace.tla.
+    Findings are data (LATENT lines, evidence key `pipeline`), never verdicts of C13."""
+    from .. import pipeline
+    for name, res in pipeline.mc():
+        run.add_mc(name, res)
+    jobs = corpus.all_singles(sd, tier=tier)[:40 if tier == "quick" else 10 ** 6]
+    jobs += corpus.draw(36 if tier == "quick" else 400, sd + 5, families=["mixed", "cpuouts", "branch", "chain", "fallback", "memonly"])
+    pipeline.install()
+    try:
+        rs = vela_run.compile_many(jobs, extractor=pipeline.extractor)
+    finally:
+        pipeline.uninstall()
+    bad = [x.get("extract_error") for x in rs if x.get("extract_error")]
+    if bad:
+        raise MachineryError("pipeline extractor failed: %s" % bad[0])
+    res, findings, cnt, events = pipeline.validate([x.get("extract") for x in rs])
+    run.add_trace_run("PipelineTrace", res, cnt["compilations"])
+    run.cov["pipeline"] = {"counters": cnt, "negative_controls": pipeline.negative_controls(events), "latent": len(findings),
+                           "first": [dict(f, family=jobs[f["record"]]["family"]) for f in findings[:10]]}
+    for f in findings[:20]:
+        print("LATENT: Pipeline %s %s(%s) in %s" % (f["pred"], f["phase"], f["index"], jobs[f["record"]]["family"]))
+
+
 def main(tier, only=None):
     run = Run("C13", tier)
     sd = seed()
@@ -286,6 +312,7 @@ def main(tier, only=None):
         run.violation(key, "%s: %s with %s -> rc=%s; %s" % (name, m["family"], " ".join(m["args"]), m["rc"],
                                                            " / ".join(m["tail"])),
                       {"net": m["net"], "args": m["args"], "observed": events[t], "output_tail": m["tail"]})
+    pipeline_component(run, tier, sd)
     run.cov["rule"] = ("one CLI subprocess per (model, option record); option records are final states of CliSpace.tla "
                        "behaviours drawn by TLC -simulate; models from the shared corpus and the corner-shape "
                        "families; distinct = distinct (family, argument list)")
